@@ -17,6 +17,7 @@ import (
 	"math/rand"
 	"os"
 	"path/filepath"
+	"runtime/debug"
 	"strings"
 	"testing"
 
@@ -77,6 +78,9 @@ func directedScripts() [][]intent {
 	out = append(out, []intent{iTry(0, 2), iTry(1, 2), iBoot(true, 2)})
 	out = append(out, []intent{iTry(0, 2), iTry(1, 2), iBoot(true, -1), iUndo(0), iUndo(1), iBoot(true, -1)})
 	out = append(out, []intent{iTry(0, 2), iTry(1, 2), iUndo(0), iBoot(true, -1)})
+	// both armed, both undone (each undo targets a pending trial), then a new refresh
+	out = append(out, []intent{iTry(0, 2), iTry(1, 2), iUndo(0), iUndo(1), iTry(0, 3), iBoot(true, -1)})
+	out = append(out, []intent{iTry(1, 2), iTry(0, 2), iUndo(1), iUndo(0), iTry(1, 3), iBoot(true, -1)})
 	for i := range out {
 		out[i] = append(out[i], settle...)
 	}
@@ -149,7 +153,8 @@ type tmon struct {
 	Attempted    bool  // T was booted from the try slot
 	MustFallback bool  // a try boot happened and no mark completed since: next boots must be known-good
 	FellBack     bool
-	Prev         int // good revision replaced by the last promotion (revert target)
+	Prev         int   // good revision replaced by the last promotion (revert target)
+	Undone       uint8 // revisions whose armed trial was cancelled by a completed undo and not re-armed since
 }
 
 func bit(r int) uint8 { return 1 << uint(r) }
@@ -181,6 +186,7 @@ type checkpoint struct {
 	mon      mon
 	traceLen int
 	lastCut  string
+	userCut  string
 	cuts     int
 	tryBoots int
 	fallb    int
@@ -197,8 +203,9 @@ type explorer struct {
 	caseIdx int
 	script  []intent
 	mon     mon
-	trace   []string
-	lastCut string
+	trace   []tev
+	lastCut string // kind of the most recent injected power loss on this path
+	userCut string // kind of the first userspace operation cut since the last completed first-mark
 	st      *stats
 
 	// per path bookkeeping for the non-triviality rule
@@ -206,15 +213,41 @@ type explorer struct {
 	nontrivial                            bool
 	mainSig                               []string
 
-	violated bool
+	violated bool // the current path hit a violation (it is abandoned)
+	nViol    int  // violations on already abandoned branches of this case
+	tracing  bool // second pass over a violating case: record states, report the violation
+}
+
+// tev is a lazily rendered trace entry (arguments are immutable values).
+type tev struct {
+	f string
+	a []interface{}
 }
 
 func (x *explorer) logf(format string, a ...interface{}) {
-	x.trace = append(x.trace, fmt.Sprintf(format, a...))
+	if x.tracing {
+		x.trace = append(x.trace, tev{format, a})
+	}
+}
+
+// stateForLog is the persistent state for a trace line (only read in tracing mode).
+func (x *explorer) stateForLog() interface{} {
+	if x.tracing {
+		return x.d.snapshot()
+	}
+	return ""
+}
+
+func (x *explorer) events() []string {
+	out := make([]string, len(x.trace))
+	for i, e := range x.trace {
+		out[i] = fmt.Sprintf(e.f, e.a...)
+	}
+	return out
 }
 
 func (x *explorer) save() *checkpoint {
-	return &checkpoint{ps: x.d.snapshot(), vol: x.d.vol, mon: x.mon, traceLen: len(x.trace), lastCut: x.lastCut,
+	return &checkpoint{ps: x.d.snapshot(), vol: x.d.vol, mon: x.mon, traceLen: len(x.trace), lastCut: x.lastCut, userCut: x.userCut,
 		cuts: x.pathCuts, tryBoots: x.pathTryBoots, fallb: x.pathFallbacks}
 }
 
@@ -224,24 +257,42 @@ func (x *explorer) load(cp *checkpoint) {
 	x.mon = cp.mon
 	x.trace = x.trace[:cp.traceLen]
 	x.lastCut = cp.lastCut
+	x.userCut = cp.userCut
 	x.pathCuts, x.pathTryBoots, x.pathFallbacks = cp.cuts, cp.tryBoots, cp.fallb
 }
 
+// violation reports a refutation. The signature is
+// C17:<clause>:<context class>:<snap type>:<configuration>. Context class: "undone-trial"
+// (the offending revision's trial had been cancelled by a completed undo),
+// else "cut-<op>" for the first userspace operation cut by a power loss and not
+// yet followed by a completed mark-successful, else "cut-boot" when only boots
+// were cut, else "nocut".
 func (x *explorer) violation(clause string, t int, what string) {
+	x.violationCtx(clause, t, "", what)
+}
+
+func (x *explorer) violationCtx(clause string, t int, ctx string, what string) {
 	x.violated = true
-	ctx := "nocut"
-	if x.lastCut != "" {
-		ctx = "cut-" + x.lastCut
+	if !x.tracing {
+		return // the case is re-run with tracing on, which reports
 	}
-	sig := fmt.Sprintf("C17:%s:%s:%s:%s", clause, typeName[t], ctx, x.d.cfg)
+	if ctx == "" {
+		ctx = "nocut"
+		if x.userCut != "" {
+			ctx = "cut-" + x.userCut
+		} else if x.lastCut != "" {
+			ctx = "cut-" + x.lastCut
+		}
+	}
+	sig := fmt.Sprintf("C17:%s:%s:%s:%s", clause, ctx, typeName[t], x.d.cfg)
 	x.c.Violation(sig, map[string]interface{}{
 		"case_index":    x.caseIdx,
 		"configuration": x.d.cfg.String(),
 		"script":        x.script,
 		"what":          what,
-		"events":        append([]string(nil), x.trace...),
+		"events":        x.events(),
 		"monitor":       map[string]string{"kernel": x.mon.t[0].text(), "base": x.mon.t[1].text()},
-		"boot_state":    x.d.stateText(),
+		"boot_state":    x.d.snapshot().text(),
 	})
 }
 
@@ -253,7 +304,11 @@ func (x *explorer) observe(t int, fn string, try bool) {
 	inG := rev > 0 && m.G&bit(rev) != 0
 	switch {
 	case rev == 0 || (!inG && rev != m.T):
-		x.violation("boot-outside", t, fmt.Sprintf("booted %s %q which is neither known-good nor the revision being tried (%s)", typeName[t], fn, m.text()))
+		ctx := ""
+		if rev > 0 && m.Undone&bit(rev) != 0 {
+			ctx = "undone-trial"
+		}
+		x.violationCtx("boot-outside", t, ctx, fmt.Sprintf("booted %s %q which is neither known-good nor the revision being tried (%s)", typeName[t], fn, m.text()))
 		return
 	case !inG && !try:
 		x.violation("unmarked-good", t, fmt.Sprintf("%s %q was booted as the regular (non-try) revision although it never completed booted+marked-successful (%s)", typeName[t], fn, m.text()))
@@ -331,9 +386,11 @@ func (x *explorer) opDone(o op) {
 		m := &x.mon.t[o.T]
 		if m.G&bit(o.Rev) == 0 {
 			m.T, m.Attempted, m.MustFallback, m.FellBack = o.Rev, false, false, false
+			m.Undone &^= bit(o.Rev)
 		}
 	case "undo-armed":
 		m := &x.mon.t[o.T]
+		m.Undone |= bit(m.T)
 		m.T, m.Attempted, m.MustFallback = 0, false, false
 	case "revert":
 		m := &x.mon.t[o.T]
@@ -363,6 +420,7 @@ func (x *explorer) opDone(o op) {
 			}
 		}
 		x.d.vol.Marked = true
+		x.userCut, x.lastCut = "", ""
 	}
 }
 
@@ -372,6 +430,7 @@ func (x *explorer) opCut(o op, changed bool) {
 		m := &x.mon.t[o.T]
 		if m.G&bit(o.Rev) == 0 {
 			m.T, m.Attempted, m.MustFallback, m.FellBack = o.Rev, false, false, false
+			m.Undone &^= bit(o.Rev)
 		}
 	case "revert":
 		if changed {
@@ -403,7 +462,7 @@ func (x *explorer) doBoot(o op) {
 	for n := 0; n < 6; n++ {
 		obs := d.attempt(n, failAt)
 		x.st.attempts++
-		x.logf("    attempt %d: kernel=%s%s base=%s%s -> %s %s | %s", n, obs.Kernel, tryMark(obs.KernelTry), obs.Base, tryMark(obs.BaseTry), obs.Outcome, obs.Err, obs.StateAfter)
+		x.logf("    attempt %d: kernel=%s%s base=%s%s -> %s %s | %s", n, obs.Kernel, tryMark(obs.KernelTry), obs.Base, tryMark(obs.BaseTry), obs.Outcome, obs.Err, obs.PS)
 		if obs.Kernel != "" {
 			x.observe(tKernel, obs.Kernel, obs.KernelTry)
 			if x.violated {
@@ -528,6 +587,9 @@ func (x *explorer) run(i int, budget int, main bool) {
 
 func (x *explorer) noteCut(kind string) {
 	x.lastCut = kind
+	if kind != "boot" && x.userCut == "" {
+		x.userCut = kind
+	}
 	x.pathCuts++
 	if x.pathTryBoots > 0 || x.mon.t[0].T != 0 || x.mon.t[1].T != 0 {
 		x.nontrivial = true
@@ -545,8 +607,11 @@ func (x *explorer) step(o op, next int, budget int, main bool) {
 				fo.Fail = s
 				x.logf("%s  [injected]", fo)
 				x.doBoot(fo)
-				if x.violated {
-					return
+				if x.violated { // only this branch dies
+					x.nViol++
+					x.violated = false
+					x.load(cp)
+					continue
 				}
 				if !x.d.vol.Up { // died where asked
 					h := x.d.snapshot().hash() + fmt.Sprint(x.mon)
@@ -557,7 +622,8 @@ func (x *explorer) step(o op, next int, budget int, main bool) {
 						x.noteCut("boot")
 						x.run(next, budget-1, false)
 						if x.violated {
-							return
+							x.nViol++
+							x.violated = false
 						}
 					} else {
 						x.st.cutsDup++
@@ -607,20 +673,21 @@ func (x *explorer) step(o op, next int, budget int, main bool) {
 			if p%2 == 1 {
 				when = "after"
 			}
-			x.logf("%s  -- POWER LOSS %s boot-state write %d of %d | %s", o, when, p/2+1, probe.writes, x.d.stateText())
+			x.logf("%s  -- POWER LOSS %s boot-state write %d of %d | %s", o, when, p/2+1, probe.writes, ps)
 			x.opCut(o, h != pre)
 			x.noteCut(o.Kind)
 			x.d.vol = volatile{} // device is off
 			x.run(next, budget-1, false)
-			if x.violated {
-				return
+			if x.violated { // only this branch dies; the other cuts and the main path go on
+				x.nViol++
+				x.violated = false
 			}
 			x.load(cp)
 		}
 	}
 	res := x.runSnapdOp(o, -1)
 	x.st.writes += res.writes
-	x.logf("%s  (%d boot-state writes) | %s", o, res.writes, x.d.stateText())
+	x.logf("%s  (%d boot-state writes) | %s", o, res.writes, x.stateForLog())
 	if res.panicV != nil {
 		x.violation("snapd-panic", o.T, fmt.Sprintf("%s panicked: %v", o, res.panicV))
 		return
@@ -644,6 +711,7 @@ func (x *explorer) step(o op, next int, budget int, main bool) {
 // ---- the test -----------------------------------------------------------------------------------
 
 func TestVerifC17(t *testing.T) {
+	debug.SetGCPercent(800) // the modeenv parser allocates 64k scanner buffers per read
 	c := kit.New("C17", "fault_enumeration")
 	defer c.Done(t)
 	c.Rule("case = (configuration in {uc16-env, uc20-grub, uc20-notscriptable}) x event script: 4..8 generated events over {set-next kernel/base rev 1..3 (try), undo/revert (BootWithoutTry), snapd-requested reboot, power cycle, boot dying after firmware / after the initramfs status update / after the initramfs snap selection, reboot before mark-successful, snapd restart (mark-successful without reboot)} resolved against the state as snapd would issue them (mark-successful first after each boot, one trial per type, undo targets the armed trial or the previously good revision), plus automatic boots/marks and a fixed settle suffix; 54 directed scripts (canonical refresh / failed refresh / undo / revert stories) precede the random ones on shard 0. For every operation on a path with crash budget left the operation is re-run from the same persistent snapshot once per crash point (before and after every numbered boot-state write; boots: once per stage) and the remaining script runs from each distinct cut state. Non-trivial = a power loss was injected on a path that had a trial armed or try-booted; distinct = signature of (configuration, resolved main-path operations and boot outcomes).")
@@ -682,7 +750,7 @@ func TestVerifC17(t *testing.T) {
 	if shard == 0 {
 		nDirected = len(directed) * int(nCfg)
 	}
-	nRandom := kit.Scale(240, 900) * int(nCfg)
+	nRandom := kit.Scale(90, 700) * int(nCfg)
 	only := kit.OnlyCase()
 	var perCfg [nCfg]stats
 	var seqs [nCfg]int
@@ -706,13 +774,27 @@ func TestVerifC17(t *testing.T) {
 		}
 		d := devs[cfg]
 		d.use()
-		d.restore(d.initial)
-		d.vol = volatile{Up: true, Marked: true, Cur: [2]int{1, 1}}
-		x := &explorer{c: c, d: d, caseIdx: idx, script: script, st: &perCfg[cfg]}
-		for t := 0; t < 2; t++ {
-			x.mon.t[t] = tmon{G: bit(1), Ever: bit(1)}
+		runCase := func(tracing bool, st *stats) *explorer {
+			d.restore(d.initial)
+			d.vol = volatile{Up: true, Marked: true, Cur: [2]int{1, 1}}
+			d.tracing = tracing
+			x := &explorer{c: c, d: d, caseIdx: idx, script: script, st: st, tracing: tracing}
+			for t := 0; t < 2; t++ {
+				x.mon.t[t] = tmon{G: bit(1), Ever: bit(1)}
+			}
+			x.run(0, budget, true)
+			return x
 		}
-		x.run(0, budget, true)
+		x := runCase(false, &perCfg[cfg])
+		if x.violated || x.nViol > 0 {
+			// deterministic re-run that records the witness and reports
+			if y := runCase(true, &stats{}); !y.violated && y.nViol == 0 {
+				c.Inconclusive(fmt.Sprintf("case %d violated the property but did not on its traced re-run (harness not deterministic)", idx))
+			}
+		}
+		if err := d.auditFiles(); err != nil {
+			c.Inconclusive(fmt.Sprintf("case %d (%s): %v", idx, cfg, err))
+		}
 		c.Eval()
 		seqs[cfg]++
 		if x.nontrivial {
